@@ -196,10 +196,22 @@ async def search(ctx):
     r = ctx.rng("pairs")
     n = ctx.budget(500, 12000)
     st = ctx.stats
-    for i in range(n):
-        a, b = gen_decl(r), gen_decl(r)
-        ca = r.choice(["S1", "S2"])
-        cb = r.choice(["S1", "S2"])
+    # directed pairs first: a tree next to a path that only LOOKS as if it were beneath it (a name that
+    # differs in case, extends the tree's name, or differs exactly at a LIKE wildcard of the tree's name)
+    directed = []
+    for tree, path in (("a_b", "axb/f.txt"), ("100%", "100-percent/g.txt"), ("d", "D/a.txt"), ("d", "d0"), ("d", "d.txt"),
+                       ("D", "d/a.txt"), ("a_b", "a_b/f.txt"), ("d", "d/a.txt")):
+        for other in (("static", (path,)), ("step", "c1", (), (path,), ()), ("step", "c1", (), (), (path,)),
+                      ("step", "c1", (path,), (), ())):
+            for ca, cb in (("S1", "S2"), ("S1", "S1")):
+                directed.append((("tree", tree), other, ca, cb))
+    for i in range(n + len(directed)):
+        if i < len(directed):
+            a, b, ca, cb = directed[i]
+        else:
+            a, b = gen_decl(r), gen_decl(r)
+            ca = r.choice(["S1", "S2"])
+            cb = r.choice(["S1", "S2"])
         if a[0] == "step" and b[0] == "step" and a[1] == b[1] and (a[2:] != b[2:]):
             continue  # the same command with different lists is a redefinition, not a pair of declarations
         ab, dump_ab = await run_order([(ca, a), (cb, b)])
